@@ -212,6 +212,13 @@ class _FuncTaint:
                     if e.func.attr in ("items", "keys", "values"):
                         return D({"list"}, b.element() if e.func.attr == "values" else D({"str"}), b.origin + "." + e.func.attr + "()")
                     return None
+            if fn == "dict" and e.args and isinstance(e.args[0], (ast.GeneratorExp, ast.ListComp)) and isinstance(e.args[0].elt, ast.Tuple) \
+                    and len(e.args[0].elt.elts) == 2:
+                # dict((key, value) for ...): the values are the second components
+                v = self.desc_in_comp(e.args[0].elt.elts[1], e.args[0], site, refine)
+                if v is not None:
+                    return D({"dict"}, v, "dict(pairs)")
+                return None
             if fn in ("set", "list", "tuple", "sorted", "dict", "frozenset") and e.args:
                 a = self.desc(e.args[0], site, refine)
                 if a is not None:
@@ -307,6 +314,7 @@ class _FuncTaint:
                     for nm in names:
                         base = nm.split(".")[-1]
                         if base in ("Exception", "BaseException", exc) or (exc == "JSONDecodeError" and base == "ValueError") \
+                                or (exc == "OverflowError" and base == "ArithmeticError") \
                                 or (base == "LookupError" and exc in ("KeyError", "IndexError")):
                             return f"try at line {p.lineno} handles {nm}"
             child = p
@@ -378,8 +386,13 @@ class _FuncTaint:
                     self.sink(n, "escape(v)", n.args[0], {"str"}, "TypeError")
                 elif fn in ("float",) and n.args:
                     self.sink(n, "float(v)", n.args[0], {"str", "int", "float", "bool"}, "TypeError")
+                    # a JSON integer has no upper bound: float(10**400) raises OverflowError (an ArithmeticError, not a ValueError)
+                    self.sink(n, "float(v) of an integer of any size", n.args[0], ANY - {"int"}, "OverflowError")
                 # calls into the same module with tainted arguments
                 callee = self.repo.funcs.get(f"{self.ta.modname}:{fn}")
+                if callee is None and isinstance(n.func, ast.Attribute) and isinstance(n.func.value, ast.Name) and n.func.value.id in ("kconfiglib", "core"):
+                    # helpers of the library that are handed a request value (is_float, _is_base_n, ...)
+                    callee = self.repo.funcs.get(f"esp_kconfiglib.core:{n.func.attr}")
                 if callee is not None:
                     params = [a.arg for a in callee.node.args.args]
                     bound: Dict[str, D] = {}
